@@ -260,4 +260,34 @@ example : Spec.HavokTag.Skel.WF ⟨[115, 107], [104, 107], 0,
   simp only [List.mem_cons, List.not_mem_nil, or_false] at hb
   rcases hb with rfl | rfl <;> exact ⟨by decide, by decide⟩
 
+/-! ### recorded finding `havok-unimplemented-member-kind` -/
+
+/-- `lodLevels` -/
+def n_lodLevels : Bytes := [108, 111, 100, 76, 101, 118, 101, 108, 115]
+
+/-- the standard skeleton file with one more member in `hkaSkeleton`, a TUPLE of two INTs, which the
+skeleton object instantiates (values 1, 2); two bones `n_root`, `n_hara` -/
+def tupleFile : Spec.HavokTag.TagFile :=
+  open Spec.HavokTag in
+  [tRoot, tNamedVariant, tBase, tReferenced, tContainer,
+    { tSkeleton with members := tSkeleton.members ++ [⟨n_lodLevels, 0x22, 2, []⟩] }, tBone].map Item.type ++
+  [.obj 1 [.structs 1 [.strs [n_hkaAnimationContainer], .strs [n_hkaAnimationContainer], .refs [2]]],
+   .obj 5 [.absent, .absent, .refs [3], .absent, .absent, .absent, .absent],
+   .obj 6 [.absent, .absent, .str [115, 107], .ints 0 [-1, 0],
+     .structs 2 [.strs [[110, 95, 114, 111, 111, 116], [110, 95, 104, 97, 114, 97]], .bytes [0, 1]],
+     .vecs [[0, 0, 0, 0, 0, 0, 0, 0x3F800000, 0x3F800000, 0x3F800000, 0x3F800000, 0],
+            [0x3F800000, 0, 0, 0, 0, 0, 0, 0x3F800000, 0x3F800000, 0x3F800000, 0x3F800000, 0]],
+     .absent, .absent, .absent, .absent, .ints 0 [1, 2]]]
+
+/-- The finding on a concrete input: the file is well formed, it describes two bones, it instantiates
+a TUPLE member - and the reader (model of the code) panics instead of returning the bones.  The real
+code panics on the same bytes (`corpus/C16/havok.case`, last case: `unimplemented 34`). -/
+theorem c16_skeleton_unimplemented_witness :
+    Spec.HavokTag.wf tupleFile = true ∧ Spec.HavokTag.usesUnimplemented [] tupleFile = true ∧
+    (Spec.HavokTag.bonesOf tupleFile).map (·.map (·.name)) =
+      some [[110, 95, 114, 111, 111, 116], [110, 95, 104, 97, 114, 97]] ∧
+    Sklb.fromExisting (Spec.Sklb.encode ⟨Spec.Sklb.vOld, 0, 0, 101, 0, 0, 0, []⟩
+      (Spec.HavokTag.encode ⟨0xFFFF, 1⟩ tupleFile)) = .panic := by
+  decide +kernel
+
 end Physis.C16
